@@ -153,6 +153,17 @@ Definition migrate_column (f : field) (r : reported) : decision :=
     if r_comment_ok r && negb (String.eqb (r_comment r) (f_comment f)) && negb (f_pk f) then true else alter in
   mk_dec alter (migrate_column_unique f r).
 
+(* "already matches": the reported type text is the declared one, nullability, default, comment
+   and uniqueness agree (where the dialect reports them) *)
+Definition matches (f : field) (r : reported) : bool :=
+  cs_eqb (trim (lower (chars (f_full f)))) (lower (chars (r_type r)))
+  && (negb (r_nullable_ok r) || negb (Bool.eqb (r_nullable r) (f_notnull f)))
+  && (let cur := f_hasdef f && (f_defi f || negb (equal_fold (chars (f_default f)) (chars "NULL"))) in
+      Bool.eqb (r_default_ok r) cur && (negb cur || String.eqb (r_default r) (f_default f)))
+  && (negb (r_comment_ok r) || String.eqb (r_comment r) (f_comment f))
+  && (negb (r_unique_ok r) || Bool.eqb (r_unique r) (f_unique f)).
+
+
 (* ------------------------------------------------------------------ *)
 (* schema state and AutoMigrate *)
 Section Migrate.
